@@ -10,6 +10,23 @@ TARGET = {"self": "/proc/self", "tself": "/proc/thread-self", "status": "/proc/{
           "attrcur": "/proc/{pid}/attr/current", "stat": "/proc/stat", "sys": "/proc/sys", "tid": "/proc/{pid}/task/{pid}"}
 SRC = {"bind-procfile": "/proc/{pid}/environ", "bind-procdir": "/proc/1", "bind-symlink": "1", "bind-file": "", "tmpfs": ""}
 BASE = {"self": "self", "tself": "thread-self", "root": "root"}
+# where the kernel must say a returned descriptor points (d_path relative to the procfs root), per skeleton node
+NODEPATH = {"pid": "/{pid}", "status": "/{pid}/status", "environ": "/{pid}/environ", "fd": "/{pid}/fd", "attr": "/{pid}/attr", "attrcur": "/{pid}/attr/current",
+            "task": "/{pid}/task", "tid": "/{pid}/task/{pid}", "tidstatus": "/{pid}/task/{pid}/status", "stat": "/stat", "sys": "/sys", "pid1": "/1",
+            "pidmounts": "/{pid}/mounts"}
+
+
+def wrong_object(x, node, wpid):
+    """a successful non-following open must return the procfs object of the requested path: compare the kernel's d_path
+    of the returned descriptor with the path of the expected skeleton node (for the worker's own pid)"""
+    want = NODEPATH.get(node)
+    got = x.get("fdpath")
+    if not want or not got or not wpid:
+        return None
+    want = want.replace("{pid}", str(wpid))
+    if got == want or got == "/proc" + want:
+        return None
+    return "returned %s, the requested path names %s" % (got, want)
 
 
 def real_path(comps):
